@@ -9,7 +9,7 @@ namespace Car
 /-- Error classes (messages are not modelled). `eof` is the clean end-of-archive signal. -/
 inductive Err
   | eof | unexpectedEOF | tooLarge | headerTooLarge | badVarint | badCid | hashMismatch
-  | badHeader | badVersion | noRoots | zeroSection | nonCanonical | other
+  | badHeader | badVersion | noRoots | zeroSection | cidTooLarge | notFound | closed | finalized | nonCanonical | other
   deriving DecidableEq, Repr, Inhabited
 
 structure Block where
